@@ -36,6 +36,8 @@ type selMonitor struct {
 	// signalled candidate keeps its id and, as documented (C06), its priority.
 	firstPrio map[uint64]*big.Int
 	firstGD   map[uint64][2]uint32
+	// roleSwitched: the agent has changed its role at least once in this history
+	roleSwitched bool
 }
 
 // observe records the reference priority of pairs seen for the first time.
@@ -228,6 +230,13 @@ func (m *selMonitor) check(where string) (string, string) {
 		}
 		if !valued {
 			po, pn := m.prioOf(prev), m.prioOf(cur)
+			if m.roleSwitched {
+				// after a role switch the clause is not judged: pairs whose peer-reflexive remote was superseded keep
+				// their priority (C06) as frozen under the role of that moment, the others are re-ranked (set aside in
+				// §10.5, not claimed either way), so "lower" has no single reference; role switches and priorities
+				// are the business of C05 and C17
+				return "", ""
+			}
 			if pn.Cmp(po) < 0 && trailingNomination {
 				// D43 (known finding): a nomination value behind MESSAGE-INTEGRITY is taken for a renomination
 				return "C03/selected/use-candidate-behind-message-integrity", fmt.Sprintf("%s on a nomination that was appended behind MESSAGE-INTEGRITY of an authentic ordinary check; previous %s had priority %s, new one %s", desc, pairKey(prev), po, pn)
@@ -542,6 +551,7 @@ func TestVerif_C03_MisbehavingPeer(t *testing.T) {
 				s.peerRequest(s.eps[arg%len(s.eps)], s.ag.socks[(arg/3)%len(s.ag.socks)], false, nil, 1000, own, tb)
 				if s.ag.a.isControlling.Load() != was {
 					lbl["role-switched"] = true
+					mon.roleSwitched = true
 					if len(s.agentRequests()) > 0 {
 						lbl["role-switched-with-checks-in-flight"] = true
 					}
